@@ -6,6 +6,7 @@
 
    Vocabulary:
      label            World w | SendTick | Deliver k | Drop k | SendAck | DeliverAck k | DropAck k | ForgeAck v
+                      | ResetMgr (Manager::reset)
                       (Deliver / DeliverAck leave the message in the channel: duplication; k is any
                       position: reordering; ForgeAck: any i32 appears on the ack channel);
                       Inject m (a message nobody sent) is outside follows_api - it exists to run the
@@ -18,12 +19,14 @@
                       snapshot the delta is taken from - the known-finding class of C09, a hypothesis here
      hist_snap s t    ghost: the snapshot the sender built for tick t
      l_accepted s     ghost: every (tick, snapshot) a Manager::snap* call has returned Ok(Some(_)) for
-     sz               the table of pre-agreed object sizes (the same on both sides) *)
+     sz               the table of pre-agreed object sizes (the same on both sides)
+     feed_all sz m ms the answers of Manager m to the messages ms, fed in order (Proofs/StorageTotal.v)
+     msg_ok m         the data of m are bytes, at most 65536 of them *)
 From LibTw2 Require Import Base.Res Model.Receiver Proofs.ReceiverBase Proofs.ReceiverChunks
   Proofs.ReceiverSteps Proofs.ReceiverXfer Proofs.ReceiverProofs Proofs.StorageRecv.
 From LibTw2 Require Import Model.Varint Model.Packer Model.Snap Proofs.SnapBase Proofs.SnapRep
   Proofs.SnapObs Proofs.SnapBuilder Proofs.SnapC10.
-From LibTw2 Require Import Model.Storage Proofs.StorageSnap Proofs.StorageBase Proofs.StorageInv.
+From LibTw2 Require Import Model.Storage Proofs.StorageSnap Proofs.StorageBase Proofs.StorageInv Proofs.StorageTotal.
 From Coq Require Import ZArith List Lia Bool.
 Import ListNotations.
 Open Scope Z_scope.
@@ -79,7 +82,7 @@ Theorem C13_ghosts : forall sz s l s' o, lstep sz s l = Ok (s', o) ->
   | _, _ => l_accepted s' = l_accepted s /\ sd_hist (l_sender s') = sd_hist (l_sender s)
   end.
 Proof.
-  intros sz s l s' o H. destruct l as [w| |k|k| |k|k|v|mi]; cbn [lstep] in H.
+  intros sz s l s' o H. destruct l as [w| |k|k| |k|k|v| |mi]; cbn [lstep] in H.
   - injection H as <- <-. split; reflexivity.
   - destruct (sender_send sz _ _ _) as [[st' x]| | |]; cbn [bind] in H; try discriminate.
     injection H as <- <-. split; reflexivity.
@@ -90,6 +93,7 @@ Proof.
   - injection H as <- <-. split; reflexivity.
   - destruct (nth_error (l_acks s) k) as [v|]; [|injection H as <- <-; split; reflexivity].
     destruct (set_delta_tick _ v) as [st' [r weird]]. injection H as <- <-. split; reflexivity.
+  - injection H as <- <-. split; reflexivity.
   - injection H as <- <-. split; reflexivity.
   - injection H as <- <-. split; reflexivity.
   - unfold deliver in H. destruct (manager_feed sz (l_mgr s) mi) as [mg' [r ws]].
@@ -157,6 +161,13 @@ Proof.
   exists s. exact Hr.
 Qed.
 
+(* Beyond the property: the receiving side does not panic on ANY stream of messages - any ticks,
+   part numbers and checksums, any bytes as data (at most 64 KiB per message), in any order - fed
+   into a new Manager: every call ends with a value or an error. *)
+Theorem C13_manager_total : forall sz msgs, forallb msg_ok msgs = true ->
+  Forall (fun r => match r with Ok _ | Err _ => True | _ => False end) (feed_all sz manager_new msgs).
+Proof. intros sz msgs H. apply (feed_all_total sz msgs manager_new mgood_new H). Qed.
+
 (* K09 is a real precondition: a snapshot in which an item keeps its raw key and changes its length
    against the acknowledged base makes Delta::create panic inside Storage::add_snap.  Second witness:
    at the level of (UUID type, id) every item keeps its length, but a fresh Builder numbers the UUID
@@ -223,5 +234,6 @@ Print Assumptions C13_error_no_advance.
 Print Assumptions C13_genuine_refusals.
 Print Assumptions C13_error_never_own_tick_refuted.
 Print Assumptions C13_no_panic.
+Print Assumptions C13_manager_total.
 Print Assumptions C13_K09_panics.
 Print Assumptions C13_nonvacuous.
